@@ -887,6 +887,12 @@ func (w *world) event(name string) {
 	case strings.HasPrefix(name, "reload-cut:"):
 		w.reloadDamaged(name)
 	case name == "list": // somebody asks for the fee-ordered listing (getmp, web UI, miner)
+		// the plain listing first: while the sorted list is dirty it is computed from scratch
+		// (GetSortedMempoolSlow) without touching the linked list the RBF listing then rebuilds
+		txpool.TxMutex.Lock()
+		l0 := txpool.GetSortedMempool()
+		txpool.TxMutex.Unlock()
+		w.checkListing(l0, "GetSortedMempool", name)
 		txpool.TxMutex.Lock()
 		l := txpool.GetSortedMempoolRBF()
 		txpool.TxMutex.Unlock()
@@ -1216,6 +1222,10 @@ func (w *world) checkFeeList(after string) int {
 // not fit or one of its pooled parents was skipped); coinbase claims subsidy plus the
 // RECORDED fees.
 func (w *world) blockFromListing(tag byte) (*reftx.Block, []string) {
+	txpool.TxMutex.Lock()
+	l0 := txpool.GetSortedMempool()
+	txpool.TxMutex.Unlock()
+	w.checkListing(l0, "GetSortedMempool", w.current+"(listing)")
 	txpool.TxMutex.Lock()
 	l := txpool.GetSortedMempoolRBF()
 	txpool.TxMutex.Unlock()
